@@ -43,8 +43,8 @@ func TestDump(t *testing.T) {
 			show(filesText(c.Files)+fmt.Sprintf("// bundle=%v minify=%s", c.Bundle, c.Minify), c.Reference, v.OK && v.Known == "", v.Discard, v.Known+" "+v.Detail, v.Expected, v.Observed)
 		case "enumx":
 			c := genEnumXCase(rt)
-			v := judgeEnumX(c)
-			show(filesText(c.Files)+fmt.Sprintf("// format=%s minify=%s inlined=%v", c.Format, c.Minify, c.Inlined), c.Reference, v.OK, v.Discard, v.Detail, v.Expected, v.Observed)
+			v := judgeEnumXKnown(c)
+			show(filesText(c.Files)+fmt.Sprintf("// format=%s minify=%s inlined=%v", c.Format, c.Minify, c.Inlined), c.Reference, v.OK && v.Known == "", v.Discard, v.Known+" "+v.Detail, v.Expected, v.Observed)
 		}
 		switch filter {
 		case "bad":
